@@ -12,6 +12,7 @@ From Coq Require Import List NArith ZArith Lia.
 From PQ Require Import Base.Bytes Base.BitPack Enc.Rle Enc.RleProofs Enc.DeltaBP Enc.DeltaBPProofs.
 From PQ Require Import Dremel.Model File.Pipeline File.PipelineProofs File.SpecDecoder File.SpecAgreement.
 From PQ Require Import Thrift.Compact Thrift.CompactProofs.
+From PQ Require Import File.Layout File.LayoutProofs.
 Import ListNotations.
 Open Scope N_scope.
 
@@ -88,4 +89,185 @@ Example C02_ex_thrift_wf : CompactProofs.wf ex_header.
 Proof. cbn. unfold in_sint, T_I16, T_I32, T_I64, T_BINARY, T_MAP. cbn. repeat split; try lia; auto. Qed.
 
 Example C02_ex_thrift_roundtrip : decode_struct (encode ex_header) = Some (ex_header, []).
+Proof. vm_compute. reflexivity. Qed.
+
+(** * Layout soundness
+
+    [Layout.layout_bytes fi] is the file an abstract writer lays out for the
+    page structure [fi] (row groups of column chunks of an optional dictionary
+    page and data pages, each page given by its header fields and its opaque
+    encoded body; bloom filter and column index sections as opaque bytes) with
+    the offset accounting of /repo/writer.go (writeFileHeader, writeDataPage,
+    writeDictionaryPage, recordPageStats, writeRowGroup, writeFileFooter), and
+    [Layout.footer_tree fi] the FileMetaData it records.  On every run the
+    harness checks that this model reproduces, byte for byte, the files the
+    library writes from the page structure observed in them.
+
+    [file_ok fi = true] is a decidable side condition (evaluated on each of
+    those files): page types are dictionary / data, the opaque metadata fields
+    do not use the ids of the accounted ones, every thrift tree produced
+    (headers, offset indexes, footer) is encodable (integers within 64 bits,
+    ...) and within the nesting depth / field count the decoder's thrift reader
+    accepts, page headers are at most 4096 bytes, the footer length fits 32
+    bits.  Under it the structural checks of the specification decoder pass
+    for every [fi]. *)
+
+(** The field ids the model writer puts in its trees are the Go struct tags. *)
+Theorem C02_layout_ids_agree_with_go : forallb struct_agrees layout_ids = true.
+Proof. exact layout_ids_agree_with_go. Qed.
+
+(** (a) magic bytes, footer length, thrift metadata: the decoder finds the
+    footer and decodes exactly the tree the accounting built. *)
+Theorem C02_layout_sound_footer : forall fi, file_ok fi = true ->
+  SpecDecoder.footer_of (mk_fbytes (layout_bytes fi)) = Some (footer_tree fi, footer_start fi).
+Proof. exact layout_footer_found. Qed.
+
+(** every column chunk of the input has its entry in the footer *)
+Theorem C02_layout_sound_chunk_entry : forall fi i j g c,
+  nth_error (fi_groups fi) i = Some g -> nth_error (gi_chunks g) j = Some c ->
+  exists gt cc md, footer_chunk (footer_tree fi) i j gt cc md.
+Proof. intros fi i j g c Hg Hc. eexists _, _, _. exact (footer_chunk_layout fi i j g c Hg Hc). Qed.
+
+(** (b) for every chunk: the recorded dictionary / data page offset and
+    total_compressed_size slice exactly the bytes of its pages, and walking page
+    headers from there (header, compressed_page_size bytes, next header) reads
+    back exactly the headers written, using up exactly total_compressed_size
+    bytes ([walk_pages] only succeeds when the bytes are used up). *)
+Theorem C02_layout_sound_chunk_pages : forall fi i j g c gt cc md,
+  file_ok fi = true ->
+  nth_error (fi_groups fi) i = Some g -> nth_error (gi_chunks g) j = Some c ->
+  footer_chunk (footer_tree fi) i j gt cc md ->
+  let start := chunk_start md in
+  let total := nat_of_field 7 md in
+  start = chunk_off fi i g j /\
+  fsub (mk_fbytes (layout_bytes fi)) start total = Some (chunk_bytes c) /\
+  walk_pages (S total) (chunk_bytes c) start = Some (written_pages start (all_pages c)).
+Proof. exact layout_chunk_pages. Qed.
+
+(** ... and the sums the decoder recomputes over the pages found (check_chunk:
+    total_compressed_size, total_uncompressed_size, num_values over the data
+    pages, data_page_offset = first data page, dictionary_page_offset = the
+    dictionary page or absent) equal the chunk's metadata. *)
+Theorem C02_layout_sound_chunk_sums : forall fi i j g c gt cc md,
+  file_ok fi = true ->
+  nth_error (fi_groups fi) i = Some g -> nth_error (gi_chunks g) j = Some c ->
+  footer_chunk (footer_tree fi) i j gt cc md ->
+  let ps := written_pages (chunk_start md) (all_pages c) in
+  let dps := filter is_data_page ps in
+  sumN (map (fun hp => (h_hlen hp + h_comp hp)%nat) ps) = n_of_field 7 md /\
+  sumN (map (fun hp => (h_hlen hp + nat_of_field 2 (h_header hp))%nat) ps) = n_of_field 6 md /\
+  fold_left N.add (map (fun hp => header_nvalues (h_header hp)) dps) 0 = n_of_field 5 md /\
+  match dps with hp :: _ => h_offset hp = n_of_field 9 md | [] => True end /\
+  match ps with
+  | hp :: _ => if is_data_page hp then n_of_field 11 md = 0 else h_offset hp = n_of_field 11 md
+  | [] => True
+  end.
+Proof. exact layout_chunk_sums. Qed.
+
+(** (c) the offset index is where the ColumnChunk says, decodes, has one
+    PageLocation per data page; each points at the header of the page it
+    describes with compressed_page_size = header + body, and first_row_index =
+    the rows of the pages before it. *)
+Theorem C02_layout_sound_offset_index : forall fi i j g c gt cc md,
+  file_ok fi = true ->
+  nth_error (fi_groups fi) i = Some g -> nth_error (gi_chunks g) j = Some c ->
+  footer_chunk (footer_tree fi) i j gt cc md ->
+  exists raw oi locs,
+    fsub (mk_fbytes (layout_bytes fi)) (n_of_field 4 cc) (nat_of_field 5 cc) = Some raw /\
+    decode_thrift raw = Some (oi, []) /\
+    get_list 1 oi = Some locs /\
+    Forall2 loc_points_at locs (filter is_data_page (written_pages (chunk_start md) (all_pages c))) /\
+    map (n_of_field 3) locs = row_starts 0 (ck_pages c).
+Proof. exact layout_offset_index. Qed.
+
+(** the column index and bloom filter sections are where the metadata says *)
+Theorem C02_layout_sound_column_index : forall fi i j g c gt cc md,
+  file_ok fi = true ->
+  nth_error (fi_groups fi) i = Some g -> nth_error (gi_chunks g) j = Some c ->
+  footer_chunk (footer_tree fi) i j gt cc md ->
+  ck_cindex c <> [] ->
+  fsub (mk_fbytes (layout_bytes fi)) (n_of_field 6 cc) (nat_of_field 7 cc) = Some (ck_cindex c).
+Proof. exact layout_column_index. Qed.
+
+Theorem C02_layout_sound_bloom_filter : forall fi i j g c gt cc md,
+  file_ok fi = true ->
+  nth_error (fi_groups fi) i = Some g -> nth_error (gi_chunks g) j = Some c ->
+  footer_chunk (footer_tree fi) i j gt cc md ->
+  ck_bloom c <> [] ->
+  fsub (mk_fbytes (layout_bytes fi)) (n_of_field 14 md) (nat_of_field 15 md) = Some (ck_bloom c).
+Proof. exact layout_bloom_filter. Qed.
+
+(** (d) row groups: file_offset is where the bytes of the row group start (=
+    the start of its first chunk), total_compressed_size / total_byte_size are
+    the sums over its chunks (check_group); the file's num_rows is the sum over
+    the row groups (check_file). *)
+Theorem C02_layout_sound_row_group : forall fi i g gt,
+  file_ok fi = true -> nth_error (fi_groups fi) i = Some g ->
+  (exists gts, get_list 4 (footer_tree fi) = Some gts /\ nth_error gts i = Some gt) ->
+  exists ccs, get_list 1 gt = Some ccs /\ length ccs = length (gi_chunks g) /\
+    n_of_field 5 gt = group_off fi i /\
+    at_offset (layout_bytes fi) (n_of_field 5 gt) (group_bytes g) /\
+    (forall cc, nth_error ccs 0 = Some cc -> chunk_start (md_of cc) = n_of_field 5 gt) /\
+    fold_left N.add (map (fun cc => n_of_field 7 (md_of cc)) ccs) 0 = n_of_field 6 gt /\
+    fold_left N.add (map (fun cc => n_of_field 6 (md_of cc)) ccs) 0 = n_of_field 2 gt.
+Proof. exact layout_row_group. Qed.
+
+Theorem C02_layout_sound_file_rows : forall fi,
+  exists gts, get_list 4 (footer_tree fi) = Some gts /\ length gts = length (fi_groups fi) /\
+    fold_left N.add (map (fun gt => n_of_field 3 gt) gts) 0 = n_of_field 3 (footer_tree fi).
+Proof. exact layout_file_rows. Qed.
+
+Print Assumptions C02_layout_ids_agree_with_go.
+Print Assumptions C02_layout_sound_footer.
+Print Assumptions C02_layout_sound_chunk_entry.
+Print Assumptions C02_layout_sound_chunk_pages.
+Print Assumptions C02_layout_sound_chunk_sums.
+Print Assumptions C02_layout_sound_offset_index.
+Print Assumptions C02_layout_sound_column_index.
+Print Assumptions C02_layout_sound_bloom_filter.
+Print Assumptions C02_layout_sound_row_group.
+Print Assumptions C02_layout_sound_file_rows.
+
+(** Non-vacuity: two row groups of two columns (INT32 required): column a has a
+    v1 PLAIN page and a v2 PLAIN page and a bloom filter section, column b a
+    dictionary page, an RLE_DICTIONARY data page, statistics and a column index
+    section.  The side condition holds and the specification decoder accepts the
+    laid out file without any complaint (bodies included). *)
+Definition ex_page (ty : Z) (n : N) (enc : Z) (tail : list (Z * tval)) (body : bytes) : page_in :=
+  {| pg_type := ty; pg_uncomp := sizeN body; pg_crc := 0; pg_nvalues := n; pg_nnulls := 0; pg_nrows := n;
+     pg_encoding := enc; pg_tail := tail; pg_body := body |}.
+Definition ex_v1tail : list (Z * tval) := [(3%Z, TInt T_I32 3); (4%Z, TInt T_I32 3)].
+Definition ex_v2tail : list (Z * tval) := [(5%Z, TInt T_I32 0); (6%Z, TInt T_I32 0); (7%Z, TBool false)].
+Definition ex_head (name : N) (encs : list Z) : list (Z * tval) :=
+  [(1%Z, TInt T_I32 1); (2%Z, TList T_I32 (map (TInt T_I32) encs)); (3%Z, TList T_BINARY [TBin [name]]);
+   (4%Z, TInt T_I32 0)].
+Definition ex_col_a (vals : list N) : chunk_in :=
+  {| ck_dict := None;
+     ck_pages := [ex_page 0 2 0 ex_v1tail (concat (map (to_le 4) (firstn 2 vals)));
+                  ex_page 3 1 0 ex_v2tail (concat (map (to_le 4) (skipn 2 vals)))];
+     ck_head := ex_head 97 [0; 3]%Z; ck_kv := []; ck_stats := []; ck_tail := [];
+     ck_bloom := [1; 2; 3; 4; 5]; ck_cindex := [] |}.
+Definition ex_col_b : chunk_in :=
+  {| ck_dict := Some (ex_page 2 2 0 [] (to_le 4 10 ++ to_le 4 20));
+     ck_pages := [ex_page 0 3 8 ex_v1tail [1; 3; 6]];
+     ck_head := ex_head 98 [0; 3; 8]%Z; ck_kv := [];
+     ck_stats := [(12%Z, TStruct [(3%Z, TInt T_I64 0)])]; ck_tail := [];
+     ck_bloom := []; ck_cindex := [25; 0; 0] |}.
+Definition ex_layout : file_in :=
+  {| fi_groups := [ {| gi_chunks := [ex_col_a [1; 2; 3]; ex_col_b]; gi_sorting := [] |};
+                    {| gi_chunks := [ex_col_a [7; 8; 9]; ex_col_b]; gi_sorting := [] |} ];
+     fi_schema := TList T_STRUCT [TStruct [(4%Z, TBin [114]); (5%Z, TInt T_I32 2)];
+                                  TStruct [(1%Z, TInt T_I32 1); (3%Z, TInt T_I32 0); (4%Z, TBin [97])];
+                                  TStruct [(1%Z, TInt T_I32 1); (3%Z, TInt T_I32 0); (4%Z, TBin [98])]];
+     fi_tail := [(6%Z, TBin [118])] |}.
+
+Example C02_ex_layout_ok : file_ok ex_layout = true.
+Proof. vm_compute. reflexivity. Qed.
+
+Example C02_ex_layout_verify :
+  (match verify (layout_bytes ex_layout) with Some (f, codes) => Some (length (f_groups f), codes) | None => None end)
+  = Some (2%nat, []).
+Proof. vm_compute. reflexivity. Qed.
+
+Example C02_ex_layout_size : length (layout_bytes ex_layout) = 493%nat.
 Proof. vm_compute. reflexivity. Qed.
